@@ -62,6 +62,41 @@ type c14Client struct {
 type c14Scripted struct {
 	ep, host, client, aud string
 	forgeWith             string // (deep 3) not helper-minted: names `client` as iss = sub but is signed with THIS client's key under its key id
+	kid                   string // (deep 4) sign with the client's key registered under this key id (default: any of its keys)
+	sub, owner            string // (deep 4) not helper-minted: iss = `client`, signed with its OWN key, but sub = `sub`; grant material of `owner`
+}
+
+// c14SubjectCheckOP (deep 4): an OP whose JWT-profile verifier carries a custom subject check (op.SubjectCheck, the one option the
+// constructor knows; needed e.g. for jwt-bearer grants on behalf of users).  The SAME verifier serves the jwt-bearer grant and client
+// authentication on both routers.  Built per request for the issuer of that request, like the stock provider's, or once (static issuer).
+type c14SubjectCheckOP struct {
+	*op.Provider
+	check func(*oidc.JWTTokenRequest) error
+	v     *op.JWTProfileVerifier
+}
+
+func (p *c14SubjectCheckOP) JWTProfileVerifier(ctx context.Context) *op.JWTProfileVerifier {
+	if p.v != nil {
+		return p.v
+	}
+	return op.NewJWTProfileVerifier(p.Storage(), op.IssuerFromContext(ctx), time.Hour, time.Second, op.SubjectCheck(p.check))
+}
+
+// c14SubjectTable: the delegation table of the `table` subject check (iss>sub pairs admitted besides sub = iss)
+var c14SubjectTable = []string{"pkB>pkA", "pkA>user1", "pkB>pkE", "pkE>pkA"}
+
+func c14SubjectCheckFn(kind string) func(*oidc.JWTTokenRequest) error {
+	return func(r *oidc.JWTTokenRequest) error {
+		if kind == "all" || r.Subject == r.Issuer {
+			return nil
+		}
+		for _, p := range c14SubjectTable {
+			if p == r.Issuer+">"+r.Subject {
+				return nil
+			}
+		}
+		return fmt.Errorf("subject %q not admitted for issuer %q", r.Subject, r.Issuer)
+	}
 }
 
 // c14LongLivedOP (deep 3): a custom OP that creates its JWT-profile verifier ONCE (op.NewJWTProfileVerifier takes a fixed issuer) and
@@ -147,6 +182,9 @@ func c14Clients() []*c14Client {
 		mk("pkE", oidc.AuthMethodPrivateKeyJWT, "", c14Key{"e1", keys[5]}),                        // Ed25519 (F-C14)
 		mk("secK", oidc.AuthMethodBasic, "secret-k", c14Key{"k1", keys[3]}),                       // registered for a secret, but the storage holds a key
 		mk("web", oidc.AuthMethodBasic, "secret-web"),
+		// (deep 4) an unusual but legal registration: pkC's key is registered under the key id "a1" - the SAME key id as pkA's RSA key
+		// (key ids are only unique per client: GetKeyByIDAndClientID) - and is the key the storage also holds for secK under "k1"
+		mk("pkC", oidc.AuthMethodPrivateKeyJWT, "", c14Key{"a1", keys[3]}),
 	}
 }
 
@@ -208,6 +246,49 @@ func c14EndpointStream(r *hx.Rand, tier string, n int, w *bufio.Writer, caseNo *
 				{ep: "revoke", host: "", client: "pkA", aud: "own"},
 			}
 		}
+		// (deep 4) histories 4-7 (one per router and flavour): the verifier carries a custom subject check; registered client pkB signs
+		// {iss: pkB, sub: pkA} with its OWN key and presents it at every endpoint that takes a client assertion, with pkA's grant
+		// material and with its own - whatever the subject, the endpoint has to go on as pkB (or refuse)
+		subjcheck := "default"
+		if h >= 10 && r.Chance(35) {
+			subjcheck = hx.Pick(r, "all", "table")
+		}
+		if h == 8 || h == 9 {
+			// (deep 4) histories 8 and 9 (one per router): the stock provider, one issuer; pkA and pkC have their keys registered under the
+			// SAME key id "a1".  pkA authenticates with a1; then pkC's genuine assertions (kid a1, its own key) and one that names pkC
+			// but is signed with pkA's a1 key; then pkA again
+			router, issMode, hosts, pkjwt, vlife = []string{"provider", "legacy"}[h-8], "static", []string{""}, true, "per-request"
+			script = []c14Scripted{
+				{ep: "introspect", host: "", client: "pkA", aud: "own", kid: "a1"},
+				{ep: "bearer", host: "", client: "pkC", aud: "own"},
+				{ep: "code", host: "", client: "pkC", aud: "own", forgeWith: "pkA"},
+				{ep: "code", host: "", client: "pkC", aud: "own"},
+				{ep: "devauth", host: "", client: "pkC", aud: "own"},
+				{ep: "revoke", host: "", client: "pkA", aud: "own", kid: "a1"},
+				{ep: "introspect", host: "", client: "pkC", aud: "own"},
+			}
+		}
+		if h >= 4 && h < 8 {
+			router, issMode, hosts, pkjwt, vlife = []string{"provider", "legacy"}[h%2], "host", []string{"a.example", "b.example"}, true, "per-request"
+			subjcheck = []string{"all", "table"}[(h-4)/2]
+			script = []c14Scripted{
+				{ep: "introspect", host: "a.example", client: "pkB", aud: "own", sub: "pkA"},
+				{ep: "code", host: "a.example", client: "pkA", aud: "own"},
+				{ep: "code", host: "a.example", client: "pkB", aud: "own", sub: "pkA", owner: "pkA"},
+				{ep: "refresh", host: "a.example", client: "pkB", aud: "own", sub: "pkA", owner: "pkA"},
+				{ep: "code", host: "b.example", client: "pkB", aud: "own", sub: "pkA", owner: "pkB"},
+				{ep: "devauth", host: "b.example", client: "pkB", aud: "own", sub: "pkA"},
+				{ep: "revoke", host: "a.example", client: "pkB", aud: "own", sub: "pkA"},
+				{ep: "device", host: "a.example", client: "pkB", aud: "own", sub: "pkA", owner: "pkA"},
+				{ep: "bearer", host: "b.example", client: "pkB", aud: "own", sub: "pkA"},
+				{ep: "bearer", host: "a.example", client: "pkA", aud: "own", sub: "user1"},
+				{ep: "introspect", host: "b.example", client: "pkA", aud: "own", sub: "pkB"},
+				{ep: "exchange", host: "b.example", client: "pkB", aud: "own", sub: "pkA"},
+			}
+			if router != "legacy" {
+				script = script[:len(script)-1]
+			}
+		}
 		cfg := opbed.Config{Router: router, S256: true, Post: true, PrivateKeyJWT: pkjwt, Refresh: true, Caps: refstore.Caps{TE: true, Device: true}}
 		switch issMode {
 		case "host":
@@ -222,14 +303,27 @@ func c14EndpointStream(r *hx.Rand, tier string, n int, w *bufio.Writer, caseNo *
 		if err != nil {
 			panic(err)
 		}
-		if vlife == "long-lived" {
-			lp := &c14LongLivedOP{Provider: bed.Provider, v: op.NewJWTProfileVerifier(bed.Storage, opbed.Issuer, time.Hour, time.Second)}
+		mount := func(lp interface {
+			op.OpenIDProvider
+			op.Authorizer
+		}) {
 			if router == "legacy" {
 				bed.Handler = op.RegisterLegacyServer(op.NewLegacyServer(lp, *op.DefaultEndpoints), op.AuthorizeCallbackHandler(lp), op.WithFallbackLogger(c14Discard))
 			} else {
 				bed.Handler = op.CreateRouter(lp)
 			}
 		}
+		switch {
+		case subjcheck != "default":
+			sp := &c14SubjectCheckOP{Provider: bed.Provider, check: c14SubjectCheckFn(subjcheck)}
+			if vlife == "long-lived" {
+				sp.v = op.NewJWTProfileVerifier(bed.Storage, opbed.Issuer, time.Hour, time.Second, op.SubjectCheck(sp.check))
+			}
+			mount(sp)
+		case vlife == "long-lived":
+			mount(&c14LongLivedOP{Provider: bed.Provider, v: op.NewJWTProfileVerifier(bed.Storage, opbed.Issuer, time.Hour, time.Second)})
+		}
+		stats["ep-subjcheck-"+subjcheck+"-"+router]++
 		cb := &c14epBed{Bed: bed, issMode: issMode, path: path, hosts: hosts}
 		cls := c14Clients()
 		byID := map[string]*c14Client{}
@@ -301,7 +395,7 @@ func c14EndpointStream(r *hx.Rand, tier string, n int, w *bufio.Writer, caseNo *
 			ep := hx.Pick(r, eps...)
 			// ---- the assertion
 			mint := hx.Pick(r, "helper", "helper", "manual", "manual", "manual")
-			cl := hx.Pick(r, byID["pkA"], byID["pkA"], byID["pkA"], byID["pkB"], byID["pkB"], byID["pkE"], byID["secK"])
+			cl := hx.Pick(r, byID["pkA"], byID["pkA"], byID["pkA"], byID["pkB"], byID["pkB"], byID["pkE"], byID["secK"], byID["pkC"], byID["pkC"])
 			wantValid := false
 			if o < len(script) {
 				sc := script[o]
@@ -323,6 +417,9 @@ func c14EndpointStream(r *hx.Rand, tier string, n int, w *bufio.Writer, caseNo *
 			if o < len(script) {
 				audKind, mint = script[o].aud, "helper"
 				if forgeWith = script[o].forgeWith; forgeWith != "" {
+					mint = "manual"
+				}
+				if script[o].sub != "" {
 					mint = "manual"
 				}
 			}
@@ -348,9 +445,17 @@ func c14EndpointStream(r *hx.Rand, tier string, n int, w *bufio.Writer, caseNo *
 				aud = []string{"https://other.example"}
 			}
 			ck := cl.keys[r.Intn(len(cl.keys))]
+			if o < len(script) && script[o].kid != "" {
+				for _, k := range cl.keys {
+					if k.kid == script[o].kid {
+						ck = k
+					}
+				}
+			}
 			l := hx.NewLine("C14").I("case", int64(*caseNo)).I("h0", int64(h0)).S("kind", "endpoint").S("router", router).S("issmode", issMode).
 				S("host", host).S("req.iss", reqIssuer).S("aud", audKind).S("mint", mint).B("cfg.pkjwt", pkjwt).S("vlife", vlife)
 			iss := cl.c.ID
+			delegatedTo := "" // (deep 4) the subject of a `delegated` assertion (variant 15)
 			var tok string
 			proper := false // made by the library helper, for the addressed issuer, with a key registered for a private_key_jwt client
 			switch mint {
@@ -374,12 +479,18 @@ func c14EndpointStream(r *hx.Rand, tier string, n int, w *bufio.Writer, caseNo *
 				sub := iss
 				signKey, kid := ck.k, ck.kid
 				iat, exp := sec-5, sec+300
-				variant := r.Intn(15)
+				variant := r.Intn(16)
 				if wantValid {
 					variant = 14
 				}
+				if subjcheck != "default" && !wantValid && r.Chance(45) {
+					variant = 15
+				}
 				if forgeWith != "" {
 					variant = 3
+				}
+				if o < len(script) && script[o].sub != "" {
+					variant = 15
 				}
 				switch variant {
 				case 0:
@@ -387,9 +498,12 @@ func c14EndpointStream(r *hx.Rand, tier string, n int, w *bufio.Writer, caseNo *
 				case 1:
 					sub = hx.Pick(r, "pkA", "pkB", "someone")
 				case 2: // another client's key under the own key id
-					signKey = hx.Pick(r, hx.Keys()[1], hx.Keys()[0], hx.Keys()[6])
+					signKey = hx.Pick(r, hx.Keys()[1], hx.Keys()[0], hx.Keys()[6], hx.Keys()[3])
 				case 3: // another client's key AND key id
 					other := hx.Pick(r, byID["pkA"], byID["pkB"])
+					if cl.c.ID == "pkC" { // the client whose key id pkC shares
+						other = byID["pkA"]
+					}
 					if forgeWith != "" {
 						other = byID[forgeWith]
 					}
@@ -402,6 +516,14 @@ func c14EndpointStream(r *hx.Rand, tier string, n int, w *bufio.Writer, caseNo *
 					iat = sec + 1 + int64(hx.Pick(r, -2, -1, 0, 1, 2))
 				case 7:
 					iat = sec - 3600 + int64(hx.Pick(r, -2, -1, 0, 1, 2))
+				case 15: // (deep 4) genuine in every respect, signed with the issuer's OWN key - but the subject is somebody else (a registered client / a user)
+					for sub == iss {
+						sub = hx.Pick(r, "pkA", "pkA", "pkB", "pkB", "pkE", "secK", "pkC", "user1")
+					}
+					if o < len(script) {
+						sub = script[o].sub
+					}
+					delegatedTo = sub
 				}
 				claims := map[string]any{"iss": iss, "sub": sub, "aud": aud, "iat": iat, "exp": exp}
 				if aud == nil {
@@ -418,6 +540,22 @@ func c14EndpointStream(r *hx.Rand, tier string, n int, w *bufio.Writer, caseNo *
 			owner := iss
 			if r.Chance(8) && !wantValid {
 				owner = hx.Pick(r, "pkA", "pkB")
+			}
+			// (deep 4) a delegated assertion comes with the grant material of the client named as SUBJECT (60 %) or of the issuer
+			if byID[delegatedTo] != nil && r.Chance(60) {
+				owner = delegatedTo
+			}
+			if o < len(script) && script[o].owner != "" {
+				owner = script[o].owner
+			}
+			subrel := "same"
+			switch {
+			case mint == "manual" && delegatedTo != "" && byID[delegatedTo] != nil:
+				subrel = "client"
+			case mint == "manual" && delegatedTo != "":
+				subrel = "other"
+			case mint == "manual":
+				subrel = "manual"
 			}
 			form := url.Values{}
 			auth := opbed.Auth{Kind: "assertion", Assertion: tok}
@@ -492,7 +630,13 @@ func c14EndpointStream(r *hx.Rand, tier string, n int, w *bufio.Writer, caseNo *
 					i++
 				}
 			}
-			l.S("v.iss", reqIssuer).I("v.maxiat", int64(time.Hour)).I("v.off", int64(time.Second))
+			l.S("v.iss", reqIssuer).I("v.maxiat", int64(time.Hour)).I("v.off", int64(time.Second)).S("subrel", subrel)
+			if subjcheck != "default" {
+				l.S("v.subjcheck", subjcheck)
+				if subjcheck == "table" {
+					l.L("v.subjtable", c14SubjectTable)
+				}
+			}
 			// order: which issuer did this provider serve first, and where does this assertion point
 			order := "first"
 			if served {
@@ -611,6 +755,9 @@ func c14EndpointStream(r *hx.Rand, tier string, n int, w *bufio.Writer, caseNo *
 				}
 				if ep == "bearer" {
 					l.L("o.scope", strings.Fields(resp.Str("scope")))
+					if sub := c14JournalArg(resp.Journal, "CreateAccessToken", 2); sub != "" {
+						l.S("o.sub", sub) // whom the token is for
+					}
 				}
 				if rt := resp.Str("refresh_token"); rt != "" && (ep == "code" || ep == "refresh") {
 					pk := owner + "@" + host
@@ -631,24 +778,29 @@ func c14EndpointStream(r *hx.Rand, tier string, n int, w *bufio.Writer, caseNo *
 			stats["ep-aud-"+audKind]++
 			stats["ep-mint-"+mint]++
 			stats["ep-vlife-"+vlife+"-"+ep+"-"+obs]++
+			if subjcheck != "default" {
+				stats["ep-subj-"+subjcheck+"-"+router+"-"+ep+"-sub-"+subrel+"-"+obs]++
+			}
 			emitLine(l)
 		}
 	}
 }
 
 // c14Identity: the client identity the endpoint went on with, read off the storage calls of the request
-func c14Identity(ep string, journal []string) string {
-	arg := func(prefix string, i int) string {
-		for _, j := range journal {
-			if strings.HasPrefix(j, prefix+"(") {
-				args := strings.Split(strings.TrimSuffix(strings.TrimPrefix(j, prefix+"("), ")"), ",")
-				if i < len(args) {
-					return args[i]
-				}
+func c14JournalArg(journal []string, prefix string, i int) string {
+	for _, j := range journal {
+		if strings.HasPrefix(j, prefix+"(") {
+			args := strings.Split(strings.TrimSuffix(strings.TrimPrefix(j, prefix+"("), ")"), ",")
+			if i < len(args) {
+				return args[i]
 			}
 		}
-		return ""
 	}
+	return ""
+}
+
+func c14Identity(ep string, journal []string) string {
+	arg := func(prefix string, i int) string { return c14JournalArg(journal, prefix, i) }
 	switch ep {
 	case "bearer":
 		return arg("ValidateJWTProfileScopes", 0)
